@@ -35,6 +35,11 @@ fn gen_base(t: &mut Tape) -> Scenario {
             let b = if ep == EP_STREAM && t.below(3) == 0 { gen_lzma(t, 0, 20_000) } else { gen_lzma(t, 0, 1200) };
             // all three header options
             opts.mode = t.below(3);
+            if ep == EP_STREAM {
+                // a third of the Stream runs allow incomplete input (finish then skips
+                // its last decode pass: the sink may lack the look-ahead tail, see C15/C16)
+                opts.allow_incomplete = t.below(3) == 0;
+            }
             let input = match opts.mode {
                 0 => b.std_file(),
                 1 => {
@@ -222,6 +227,8 @@ fn must_flush(ep: u64) -> bool {
 fn judge(sc: &Scenario, o: &Outcome) -> Option<Violation> {
     let ep = sc.i("ep");
     let epn = ep_name(ep);
+    // with incomplete input allowed a successful finish may lack the look-ahead tail
+    let may_be_short = ep == EP_STREAM && OptSpec::load(sc).allow_incomplete;
     if let Verdict::Panic(p) = &o.v {
         return Some(Violation::new(
             "panic",
@@ -261,7 +268,7 @@ fn judge(sc: &Scenario, o: &Outcome) -> Option<Violation> {
         if only_in_flush_ops {
             // the failure was reported by flush() itself; the stream may go on and
             // then has to deliver the complete output
-            if o.v.is_ok() && o.accepted.len() != sc.b("expect").len() {
+            if o.v.is_ok() && o.accepted.len() != sc.b("expect").len() && !(may_be_short && o.accepted.len() < sc.b("expect").len()) {
                 return Some(Violation::new(
                     "output_incomplete",
                     epn,
@@ -301,7 +308,7 @@ fn judge(sc: &Scenario, o: &Outcome) -> Option<Violation> {
             sc,
         ));
     }
-    if sc.has_b("expect") && o.accepted.len() != sc.b("expect").len() {
+    if sc.has_b("expect") && o.accepted.len() != sc.b("expect").len() && !(may_be_short && o.accepted.len() < sc.b("expect").len()) {
         return Some(Violation::new(
             "output_incomplete",
             epn,
